@@ -35,6 +35,112 @@ Section Indep.
 End Indep.
 
 (* ---------------------------------------------------------------------------------------------- *)
+(* two pruning functions compared (used for --exclude: the code's matches_dir against the
+   declarative "not inside an excluded directory") *)
+Section TwoPrunings.
+  Variable sel_file : path -> bool.
+  Variables sd1 sd2 : path -> bool.
+  Variable ign1 : path -> path -> bool -> bool.
+  Variable t : tree.
+  Variable c : config.
+
+  (* pointwise weaker pruning keeps every visit — any configuration *)
+  Lemma enters_true_mono tk nd :
+    (forall d, sd1 d = true -> sd2 d = true) ->
+    enters sd1 ign1 t c true tk nd -> enters sd2 ign1 t c true tk nd.
+  Proof.
+    intros Hm (H1 & H2 & H3 & H4). repeat split; auto.
+    intros Hk Ht. eapply filter_ok_mono; eauto.
+  Qed.
+
+  Lemma visits_true_mono roots tk :
+    (forall d, sd1 d = true -> sd2 d = true) ->
+    visits sd1 ign1 t c true roots tk -> visits sd2 ign1 t c true roots tk.
+  Proof.
+    intros Hm Hv. induction Hv as [tk Hin | tk tk' Hv IH Hed]; [now apply V_root|].
+    eapply V_step; [exact IH|].
+    destruct Hed as [nd q He Hk Hd Hs Ho Hq Hl | nd ab tg target tnd He Hk Hf Hr Hfk Ho].
+    - eapply E_child; eauto using enters_true_mono.
+    - eapply E_link; eauto using enters_true_mono.
+  Qed.
+
+  Lemma selected_true_mono roots x :
+    (forall d, sd1 d = true -> sd2 d = true) ->
+    selected sel_file sd1 ign1 t c true roots x -> selected sel_file sd2 ign1 t c true roots x.
+  Proof.
+    intros Hm (tk & Hv & nd & He & Hx). exists tk. split; [now apply visits_true_mono|].
+    exists nd. split; [|exact Hx]. eapply enters_true_mono; eauto.
+  Qed.
+
+  (* without link following the visits on the way to a path are its prefixes: pruning that accepts
+     all proper prefixes of the path — and the path itself unless it is a regular file or a link,
+     whose own path is never filtered — keeps the visit *)
+  Lemma visits_prune2 pr roots tk :
+    c_follow c = false -> visits sd1 ign1 t c pr roots tk ->
+    (forall d, prefix d (t_path tk) ->
+               (d = t_path tk -> kind_at t is_file_kind (t_path tk) = false /\ kind_at t is_link_kind (t_path tk) = false) ->
+               sd2 d = true) ->
+    visits sd2 ign1 t c true roots tk.
+  Proof.
+    intros Hnf Hv. induction Hv as [tk Hin | tk tk' Hv IH Hed]; intros Hsd.
+    - now apply V_root.
+    - destruct Hed as [nd q He Hk Hd Hs Ho Hq Hl | nd ab tg target tnd He Hk Hf]; [|congruence].
+      cbn [t_path] in Hsd.
+      assert (Hq' := Hq). apply children_spec in Hq'. destruct Hq' as [_ [n Hqn]].
+      assert (Hsd' : forall d, prefix d (t_path tk) -> sd2 d = true).
+      { intros d [r Hd']. apply Hsd.
+        - exists (r ++ [n]). rewrite Hqn, Hd'. now rewrite app_assoc.
+        - intros E. exfalso. assert (Hlen : length d = length q) by now rewrite E.
+          rewrite Hqn, Hd', !app_length in Hlen. cbn in Hlen. lia. }
+      apply V_step with (tk := tk).
+      + apply IH. intros d Hd' _. now apply Hsd'.
+      + destruct He as (H1 & H2 & H3 & H4).
+        assert (Hself : sd2 (t_path tk) = true) by apply Hsd', prefix_refl.
+        assert (Hfo : filter_ok sd2 nd (t_path tk) = true) by (apply filter_ok_all; exact Hsd').
+        assert (He' : enters sd2 ign1 t c true tk nd) by (repeat split; auto).
+        eapply E_child; eauto.
+  Qed.
+
+  Lemma selected_prune2 pr roots x :
+    c_follow c = false ->
+    (forall d, prefix d x -> (d = x -> kind_at t is_file_kind x = false /\ kind_at t is_link_kind x = false) -> sd2 d = true) ->
+    selected sel_file sd1 ign1 t c pr roots x -> selected sel_file sd2 ign1 t c true roots x.
+  Proof.
+    intros Hnf Hsd (tk & Hv & nd & He & -> & Hs & Hk).
+    exists tk. split; [eapply visits_prune2; eauto|].
+    destruct He as (H1 & H2 & H3 & H4).
+    assert (Hfo : filter_ok sd2 nd (t_path tk) = true).
+    { apply filter_ok_prefixes. intros d Hd Hf. apply Hsd; auto.
+      intros E. unfold kind_at. rewrite H1. auto. }
+    exists nd. split; [|auto]. repeat split; auto.
+  Qed.
+End TwoPrunings.
+
+(* the prefixes of a path, and "not inside an excluded directory" *)
+Definition prefixes (d : path) : list path := map (fun n => firstn n d) (seq 0 (S (length d))).
+Definition not_below (excl : path -> bool) (d : path) : bool := negb (existsb excl (prefixes d)).
+
+Lemma prefixes_spec d d' : In d' (prefixes d) <-> prefix d' d.
+Proof.
+  unfold prefixes, prefix. rewrite in_map_iff. split.
+  - intros (n & <- & _). exists (skipn n d). symmetry. apply firstn_skipn.
+  - intros [r ->]. exists (length d'). split.
+    + rewrite firstn_app, Nat.sub_diag, firstn_all. cbn. now rewrite app_nil_r.
+    + apply in_seq. rewrite app_length. lia.
+Qed.
+
+Lemma not_below_true excl d : not_below excl d = true <-> forall d', prefix d' d -> excl d' = false.
+Proof.
+  unfold not_below. rewrite negb_true_iff. split.
+  - intros H d' Hp. destruct (excl d') eqn:E; auto.
+    assert (existsb excl (prefixes d) = true); [|congruence].
+    apply existsb_exists. exists d'. split; auto. now apply prefixes_spec.
+  - intros H. destruct (existsb excl (prefixes d)) eqn:E; auto.
+    apply existsb_exists in E. destruct E as (d' & Hin & He). apply prefixes_spec in Hin.
+    rewrite (H d' Hin) in He. discriminate.
+Qed.
+
+(* ---------------------------------------------------------------------------------------------- *)
 Section Statements.
   Variable sel_file : path -> bool.
   Variable sel_dir : path -> bool.
@@ -56,6 +162,85 @@ Section Statements.
   Proof.
     intros Hc Hnf H. destruct (scan_spec _ _ _ _ _ _ _ _ H) as (l0 & Hw & _ & Hl).
     rewrite Hl. rewrite (walk_exact_nofollow _ _ _ _ _ _ _ _ x Hc Hnf Hw). tauto.
+  Qed.
+
+  (* with --exclude: matches_dir rejects a directory on the way to a matching file only because an
+     exclude pattern matches that directory or one above it (hypothesis 1: the prefix match is component
+     aligned), it does reject everything at or below an excluded path (hypothesis 2), and a path that
+     an exclude pattern matches is not accepted as a file (hypothesis 3); the declarative reading then
+     is "reachable without entering an excluded directory" = pruning with `not_below excl` *)
+  Lemma prefix_snoc (d' p : path) n : prefix d' (p ++ [n]) -> prefix d' p \/ d' = p ++ [n].
+  Proof.
+    intros [r Hr]. destruct r as [|a0 r0].
+    - right. now rewrite app_nil_r in Hr.
+    - left. destruct (@exists_last _ (a0 :: r0)) as (r' & a & E); [discriminate|].
+      rewrite E, app_assoc in Hr. apply app_inj_tail in Hr. destruct Hr as [-> _]. now exists r'.
+  Qed.
+
+  Lemma selected_not_excluded excl roots x :
+    c_follow c = false -> (forall p, sel_file p = true -> excl p = false) ->
+    selected sel_file (not_below excl) ign1 t c true roots x ->
+    forall d', prefix d' x -> excl d' = false.
+  Proof.
+    intros Hnf HC (tk & Hv & nd & (H1 & H2 & H3 & H4) & -> & Hsf & _) d' Hp.
+    destruct Hv as [tk Hin | tk0 tk Hv Hed].
+    - apply root_tasks_spec in Hin. destruct Hin as (raw & nd0 & _ & _ & _ & ->).
+      cbn [t_path t_kind] in *. specialize (H2 eq_refl eq_refl).
+      assert (Hpar : filter_parent (not_below excl) (absolute t raw) = true -> excl d' = false).
+      { (* a regular file or a link: its parent was filtered, the path itself is not excluded (hypothesis 3) *)
+        unfold filter_parent. intros Hfp.
+        destruct (absolute t raw) as [|a q] eqn:Ea.
+        - destruct Hp as [r Hr]. destruct d'; [now apply HC|discriminate].
+        - rewrite (app_removelast_last (l := a :: q) []) in Hp by discriminate.
+          destruct (prefix_snoc _ _ _ Hp) as [Hp' | ->].
+          + exact (proj1 (not_below_true excl _) Hfp d' Hp').
+          + rewrite <- (app_removelast_last (l := a :: q) []) by discriminate. now apply HC. }
+      unfold filter_ok in H2. destruct (n_kind nd).
+      + exact (Hpar H2).
+      + exact (proj1 (not_below_true excl _) H2 d' Hp).
+      + exact (Hpar H2).
+      + exact (proj1 (not_below_true excl _) H2 d' Hp).
+    - destruct Hed as [nd0 q He Hk Hd Hs Ho Hq Hl | nd0 ab tg target tnd He Hk Hf]; [|congruence].
+      cbn [t_path] in *. apply children_spec in Hq. destruct Hq as [_ [n ->]].
+      destruct (prefix_snoc _ _ _ Hp) as [Hp' | ->].
+      + exact (proj1 (not_below_true excl _) (Hs eq_refl) d' Hp').
+      + now apply HC.
+  Qed.
+
+  Lemma stmt_exact_exclude excl sched roots l x :
+    (forall p d, sel_file p = true -> prefix d p -> d <> p ->
+                 sel_dir d = true \/ exists d', prefix d' d /\ excl d' = true) ->
+    (forall d d', excl d' = true -> prefix d' d -> sel_dir d = false) ->
+    (forall p, sel_file p = true -> excl p = false) ->
+    c_follow c = false ->
+    scan sel_file sel_dir ign1 t c sched roots = Done l ->
+    (In x l <-> selected sel_file (not_below excl) ign1 t c true roots x /\ size_ok t c x = true).
+  Proof.
+    intros HA HB HC Hnf H. destruct (scan_spec _ _ _ _ _ _ _ _ H) as (l0 & Hw & _ & Hl).
+    rewrite Hl.
+    assert (Hiff : In x l0 <-> selected sel_file (not_below excl) ign1 t c true roots x); [|tauto].
+    split.
+    - intros Hx. apply (walk_sound _ _ _ _ _ _ _ _ _ Hw) in Hx.
+      eapply selected_true_mono; [|exact Hx].
+      intros d Hd. apply not_below_true. intros d' Hp. destruct (excl d') eqn:E; auto.
+      rewrite (HB d d' E Hp) in Hd. discriminate.
+    - intros Hs.
+      assert (Hsel : sel_file x = true).
+      { destruct Hs as (tk & _ & nd & _ & _ & Hsf & _). exact Hsf. }
+      assert (Hkind : kind_at t is_file_kind x = true \/ kind_at t is_link_kind x = true).
+      { destruct Hs as (tk & _ & nd & (Hlk & _) & -> & _ & Hk). unfold kind_at. rewrite Hlk.
+        destruct Hk as [Hk | (ab & tg & target & tnd & Hk & _)]; [now left|right].
+        unfold is_link_kind. now rewrite Hk. }
+      pose proof (selected_not_excluded excl roots x Hnf HC Hs) as Hne.
+      assert (Hsd : forall d, prefix d x ->
+                (d = x -> kind_at t is_file_kind x = false /\ kind_at t is_link_kind x = false) -> sel_dir d = true).
+      { intros d Hd Hself.
+        assert (Hne' : d <> x).
+        { intros E. destruct (Hself E) as [Hf Hk]. destruct Hkind as [H' | H']; congruence. }
+        destruct (HA x d Hsel Hd Hne') as [Hok | (d' & Hp & E)]; auto.
+        rewrite (Hne d' (prefix_trans _ _ _ Hp Hd)) in E. discriminate. }
+      apply (selected_prune2 sel_file (not_below excl) sel_dir ign1 t c true roots x Hnf Hsd) in Hs.
+      apply produces_selected in Hs. unfold walk in Hw. eapply run_complete_nofollow; eauto.
   Qed.
 
   Lemma stmt_exact_follow sched roots l x :
@@ -226,3 +411,25 @@ Lemma ex_hidden_root :
   scan all_true all_true no_ign htree wcfg3 sched_lifo [[nH]] = Done [[nH; nF]] /\
   scan all_true all_true no_ign htree wcfg3 sched_lifo [[]] = Done [].
 Proof. split; vm_compute; reflexivity. Qed.
+
+(* --exclude /a on the witness tree: excl = "is /a", matches_dir rejects /a and everything below,
+   matches_full_path rejects /a itself; the three hypotheses of stmt_exact_exclude hold *)
+Definition xexcl (p : path) : bool := path_eqb p [nA].
+Definition xsel_dir (d : path) : bool := negb (pe [nA] d).
+Definition xsel_file (p : path) : bool := negb (path_eqb p [nA]).
+Lemma ex_exclude :
+  (forall p d, xsel_file p = true -> prefix d p -> d <> p ->
+               xsel_dir d = true \/ exists d', prefix d' d /\ xexcl d' = true) /\
+  (forall d d', xexcl d' = true -> prefix d' d -> xsel_dir d = false) /\
+  (forall p, xsel_file p = true -> xexcl p = false) /\
+  scan xsel_file xsel_dir no_ign wtree wcfg3 sched_lifo [[]] = Done [[nD; nF]].
+Proof.
+  split; [|split; [|split]].
+  - intros p d _ _ _. unfold xsel_dir. destruct (pe [nA] d) eqn:E; [right|now left].
+    exists [nA]. split; [now apply pe_spec|]. unfold xexcl. now apply path_eqb_true.
+  - intros d d' E Hp. unfold xexcl in E. apply path_eqb_true in E. subst d'.
+    unfold xsel_dir. apply pe_spec in Hp. now rewrite Hp.
+  - intros p H. unfold xsel_file in H. unfold xexcl. now destruct (path_eqb p [nA]).
+  - vm_compute. reflexivity.
+Qed.
+
